@@ -113,10 +113,18 @@ func setup() (*world.World, *lifetimes) {
 		lt.serverAT, lt.serverRT = cfgAT, cfgRT
 		zz.Cover("source:configured", scenario == 1)
 	}
-	wd := world.New(world.Options{Tweak: func(cfg *fosite.Config) {
+	tweak := func(cfg *fosite.Config) {
 		cfg.AccessTokenLifespan = cfgAT
 		cfg.RefreshTokenLifespan = cfgRT
-	}})
+	}
+	var wd *world.World
+	if jwtAccess {
+		// access tokens are JWTs (oauth2.DefaultJWTStrategy over the model signer): the signed exp claim
+		// decides how long they are honoured
+		wd = world.NewX(world.XOptions{JWTAccess: true, Tweak: tweak})
+	} else {
+		wd = world.New(world.Options{Tweak: tweak})
+	}
 	base := wd.Store.Clients["c1"].(*fosite.DefaultClient)
 	switch scenario {
 	case 3: // client type with overrides, but no table
@@ -151,12 +159,24 @@ func expiresIn(r fosite.AccessResponder) (int64, bool) {
 	return v, ok
 }
 
+// jwtAccess selects the JWT access-token strategy for setup() and the code grant of flowLifetimes.
+var jwtAccess bool
+
 // ZZ_C07_flow_lifetimes
-func ZZ_C07_flow_lifetimes() {
+func ZZ_C07_flow_lifetimes() { jwtAccess = false; flowLifetimes() }
+
+// ZZ_C07_flow_lifetimes_jwt: the same for JWT access tokens (code and refresh flows; the password and
+// client_credentials helpers of the world use plain sessions, which the JWT strategy does not accept).
+func ZZ_C07_flow_lifetimes_jwt() { jwtAccess = true; flowLifetimes() }
+
+func flowLifetimes() {
 	wd, lt := setup()
 	nflows := 4
 	if zz.Thorough() {
 		nflows = 5 // + implicit grant at the authorization endpoint
+	}
+	if jwtAccess {
+		nflows = 2
 	}
 	flow := zz.Choice("flow", nflows)
 	var resp fosite.AccessResponder
@@ -167,7 +187,13 @@ func ZZ_C07_flow_lifetimes() {
 	var advertised, wantAT time.Duration
 	switch flow {
 	case 0, 1:
-		code, _, aerr := wd.AuthorizeCode("c1", scopes, nil)
+		var code string
+		var aerr error
+		if jwtAccess {
+			code, aerr = wd.AuthorizeCodeSession("c1", scopes, nil, world.NewJWTSession("peter"))
+		} else {
+			code, _, aerr = wd.AuthorizeCode("c1", scopes, nil)
+		}
 		zz.Assume(aerr == nil)
 		resp, err = wd.Redeem("c1", code)
 		atSlot, rtSlot = slotCodeAT, slotCodeRT
